@@ -74,7 +74,7 @@ Extraction "model.ml"
   dfs
   ev_upto
   ev_erase
-  top_sort
+  DfsM.top_sort
   is_acyclic
   dfs_order
   dfs_order_spec
@@ -131,7 +131,7 @@ Extraction "model.ml"
   tarjan
   kosaraju
   transpose
-  top_sort
+  SccM.top_sort
   symm_seq
   symm_par
   finish_orderedb
